@@ -669,7 +669,8 @@ class CallMixin:
                 f = Func(node, dc.module, {}, f"{dc.name}.{mr.name}", self_val=Z(T("ref", (), cs[0] if len(cs) == 1 else dc.name), recv.e), cls=dc)
                 vals.append((c, self.call_func(st, f, args, kwargs)))
             if not vals:
-                raise OutsideSubset(f"no implementation of {mr.name}")
+                # no class of the receiver defines the method: python raises AttributeError at this call
+                raise PyRaise(self.make_exc(st, "AttributeError", [zstr(mr.name)]))
             out = vals[-1][1]
             for c, x in reversed(vals[:-1]):
                 out = self.merge(st, c, x, out)
